@@ -1,5 +1,5 @@
 PROP = {
-    "thm": "Umya.Thm.C14",
+    "thm": ["Umya.Thm.C14", "Umya.Thm.C14Gen"],
     "frame_shared_state": True,
     "harness": "c14",
     "level": "proof",
@@ -20,7 +20,7 @@ PROP = {
                   "hypothesis VerifierRejects (a cryptographic assumption). The executable Lean primitives are validated by FIPS 180-4 / "
                   "FIPS 197 / SP 800-38A / RFC 4231 / RFC 4648 vectors (op `c14 selftest`) and by agreement with the Rust crates on every line. "
                   "Theorems are about the descriptor record; the XML text and the scanner are executed and compared, their round trip is not proved.",
-    "expect_theorems": ["C14_no_panic", "C14_decrypts", "C14_verifier_hmac_len", "C14_sizes", "C14_declared_size",
+    "expect_theorems": ["C14_constants_match_source", "C14_no_panic", "C14_decrypts", "C14_verifier_hmac_len", "C14_sizes", "C14_declared_size",
                         "C14_declared_size_4GiB_fails", "C14_wrong_password"],
     "rule": "hook stream: convert_password_to_key (6 passwords x spin {0,1,2,3,50} x keyBits {256,128,512,520,8,0} x salts, one at spin 100000 = "
             "the crate's own test vector), create_iv (block sizes 0..100), crypt (good and panicking key/iv/input lengths), crypt_package on "
